@@ -122,7 +122,9 @@ func c02Body(c *core.Ctx) {
 
 // ---- C01 QR ----------------------------------------------------------------------------
 
-var qrClass = []string{"0", "7", "A", "Z", " ", ":", "+", "-", "a", "é", "\xff", "\x00"}
+var qrClass = []string{"0", "7", "A", "Z", " ", ":", "+", "-", "a", "é", "\xff", "\x00",
+	// runes above U+00FF whose low byte is a digit / a letter of the alphanumeric set (a table indexed by a truncated rune must not absorb them)
+	"İ", "Ł"}
 
 // qrCap returns the largest character count that fits version v at the level in the mode.
 func qrCap(mode, level, v int) int {
@@ -224,10 +226,41 @@ func enumQR(c *core.Ctx, classLen int, pairs bool, allLengths bool) {
 	}
 }
 
+// farQR: every length from just above the capacity of version 40 up to beyond the point where a
+// 16-bit count of payload bits wraps, plus windows around 2^15 and 2^16 characters: oversize content
+// must be refused whatever integer type an implementation counts in (accepted = truncated symbol).
+func farQR(c *core.Ctx, levels []int) {
+	for _, lvl := range levels {
+		for _, sp := range []struct{ rm, enc, hi int }{{1, 1, 19800}, {2, 2, 12000}, {4, 3, 8260}} {
+			lo := qrCap(sp.rm, lvl, 40) + 2
+			var ls []int
+			for n := lo; n <= sp.hi; n++ {
+				ls = append(ls, n)
+			}
+			for _, w := range []int{1 << 15, 1 << 16} {
+				for n := w - 4; n <= w+4; n++ {
+					ls = append(ls, n)
+				}
+			}
+			for _, n := range ls {
+				content := qrFill(sp.rm, n)
+				Run(c, &core.Case{Fam: "qr", S: content, P: []int{lvl, sp.enc}})
+				Run(c, &core.Case{Fam: "qr", S: content, P: []int{lvl, 0}})
+			}
+		}
+	}
+}
+
 func c01Body(c *core.Ctx) {
 	defer seqPairs(c, "qr")
 	cl := pick(c, 3, 4)
 	enumQR(c, cl, true, c.Thorough())
+	if c.Thorough() {
+		farQR(c, []int{0, 1, 2, 3})
+	} else {
+		farQR(c, []int{0})
+	}
+	c.R.Bound("far_oversize", "every length from capacity(40)+2 to 19 800 digits / 12 000 alphanumeric / 8 260 bytes (beyond a 16-bit wrap of the payload bit count) and +-4 around 2^15 and 2^16 characters, explicit mode and Auto (quick: level L; thorough: all levels): accepted oversize content would decode to something else")
 	c.R.Bound("class_words", fmt.Sprintf("all words <= %d over %q x 4 levels x 4 modes", cl, qrClass))
 	c.R.Bound("alphabet", "all 256 single bytes and all 45^2 alphanumeric pairs x 4 levels x 4 modes")
 	c.R.Bound("group_macro_words", "all words of 2..3 chunks over 10 numeric-group chunks (sign or foreign character at every position of a 3-digit group) and 7 alphanumeric-pair chunks, levels L and H, explicit mode and Auto")
@@ -414,6 +447,32 @@ func enumPDF(c *core.Ctx, classLen, macroLen int, thorough bool) {
 			return true
 		})
 	}
+	// byte compaction packs 6 bytes into 5 base-900 digits, numeric compaction 44 digits into 15: groups
+	// whose value sits at every power of 900 (a leading base-900 digit that is zero), zero, maximal
+	// and generic groups, in every order, with and without a tail
+	b6 := func(v uint64) string {
+		return string([]byte{byte(v >> 40), byte(v >> 32), byte(v >> 24), byte(v >> 16), byte(v >> 8), byte(v)})
+	}
+	byteGroups := []string{b6(0), b6(1), b6(899), b6(900), b6(900*900 - 1), b6(900 * 900), b6(900*900*900 - 1), b6(900 * 900 * 900),
+		b6(900*900*900*900 - 1), b6(900 * 900 * 900 * 900), b6(1<<48 - 1), "\x80\x81\x82\x83\x84\x85", "\x00\x41\x00\x42\x00\x43"}
+	for _, lv := range []int{0, 2} {
+		Words(byteGroups, 1, 3, func(w string, n int) bool {
+			if n == 3 && lv != 0 {
+				return true
+			}
+			Run(c, &core.Case{Fam: "pdf", S: []byte(w), P: []int{lv}})
+			Run(c, &core.Case{Fam: "pdf", S: []byte(w + "\x01"), P: []int{lv}})
+			return true
+		})
+	}
+	z43 := strings.Repeat("0", 43)
+	numGroups := []string{z43 + "0", "1" + z43, strings.Repeat("9", 44), z43 + "1", "31415926535897932384626433832795028841971693", "000000000000000000000000000000" + "12345678901234"}
+	Words(numGroups, 1, 3, func(w string, _ int) bool {
+		for _, tail := range []string{"", "5", "000000000000000", "x"} {
+			Run(c, &core.Case{Fam: "pdf", S: []byte(w + tail), P: []int{1}})
+		}
+		return true
+	})
 	fills := []func(n int) []byte{
 		func(n int) []byte { return []byte(Filler("ABCDEFGHIJKLMNOPQRSTUVWXYZ ", n)) },
 		func(n int) []byte { return []byte(Filler("aB1;& ,z\nQ:x", n)) },
@@ -453,6 +512,7 @@ func c04Body(c *core.Ctx) {
 	c.R.Bound("bytes", "all 256 single bytes and all 65536 byte pairs at level 1")
 	c.R.Bound("macro_words", fmt.Sprintf("all words of 1..%d chunks over 15 segment chunks at levels 0 and 3", ml))
 	c.R.Bound("length_grid", "text/mixed/digit/byte fillers of length 0..2700 (quick: < 64 and multiples of 13) x levels")
+	c.R.Bound("group_words", "all words of 1..3 six-byte groups over 13 groups (values 0, 1, 900^k-1, 900^k for k=1..4, 2^48-1, two generic) with and without a trailing byte; all words of 1..3 44-digit groups over 6 groups (all zero, leading/trailing one, all nine, generic, 30 leading zeros) x 4 tails")
 	c.R.Sample(map[string]any{"data": "1;;;;\x80;;;;;;", "level": 0, "expect": "text segment ending in Punctuation with an odd number of values is padded with 29 (= latch to Alpha); after the 913 byte shift the text must resume in Alpha"})
 	c.R.Sample(map[string]any{"data": "ABCDE1234567890123", "level": 2, "expect": "text compaction then 902 numeric latch"})
 }
